@@ -8,23 +8,68 @@ LEVEL_NOTE = ("Trusted: Coq 8.16.1 kernel (no axioms: every Print Assumptions is
               "crate on the same scripts, traces equal event by event); extraction (ExtrOcamlBasic only), driver/main.ml, "
               "harness/src. Assumed: peers are conformant in the sense of DESIGN.md 3.3 (local reaction), user closures pure.")
 
+PROOF_TECH = "Coq invariant proof over a hand-written model + differential correspondence check"
+
 CHECKS = {
- "C01": ("proof", "Theorems (Properties/C01.v): in every configuration reachable under the conformant environment the protocol monitor "
-         "has recorded no GreetTwice/BeforeGreet violation (unbounded nesting depth and history length, all parameters). "
-         "The tie to the code is the correspondence check; the monitors also run on the real traces so that a violation comes with a replayable script.",
-         "Coq invariant proof over a hand-written model + differential correspondence check"),
- "C02": ("proof", "As C01 for the AfterFinish kind (nothing after a terminal message). share's nested fan-out is a recorded known finding (class NestedFanout).",
-         "Coq invariant proof + differential correspondence check"),
- "C03": ("proof", "As C01 for the AfterDispose kind (no delivery begins after the sink disposed). share's nested fan-out is a recorded known finding.",
-         "Coq invariant proof + differential correspondence check"),
- "C04": ("proof", "As C01 for the upstream-side kinds (SubTwice, SubAfterOver, UpEarly, Pull/Stop after end/stop, Orphan at quiescence). "
-         "combine's broadcast to members that are not running is a recorded known finding.",
-         "Coq invariant proof + differential correspondence check"),
- "C05": ("proof", "As C01 for ErrLost/ErrChanged (an upstream Error reaches every live sink, same id, by the next quiescent point, never as Terminate). "
-         "combine counting an Error as completion is a recorded known finding.",
-         "Coq invariant proof + differential correspondence check"),
- "C17": ("proof", "Theorems: dead c = false (no panic!/expect/unwrap site reachable) in every reachable configuration of each component's model.",
-         "Coq invariant proof + differential correspondence check"),
+ "C01": ("proof", "Theorems (Properties/C01.v) for every component (map, filter, scan, skip, take n>=1, from_iter with any iterator, "
+         "interval, merge! of any n>=1 with late greeters, concat! of any n, share with any number of sinks; flatten: see C11) and every "
+         "configuration reachable under the conformant environment (unbounded nesting and history): greet_once and greet_first of the "
+         "trace (readable, monitor-free predicates of MonitorSound.v). combine!: the monitor never records a C01 kind (any arity). "
+         "The tie to the code is the correspondence check run on every invocation; the extracted monitors also run on the real traces.",
+         PROOF_TECH),
+ "C02": ("proof", "As C01 for term_final (nothing after a Terminate/Error). share: proved for the environment C12 quantifies over "
+         "(no nested fan-out); nested fan-out is the recorded known finding KF3.", PROOF_TECH),
+ "C03": ("proof", "As C01 for dispose_respected (no delivery after the sink sent Terminate/Error). share as for C02 (KF3).", PROOF_TECH),
+ "C04": ("proof", "As C01 for sub_once, talkback_only_live, stop_once, no_pull_outside and, via the invariant theorems, the orphan check at "
+         "quiescent points. combine!: only the kinds of the recorded finding KF2 can occur (proved), never SubTwice/UpEarly/StopAfterStop/Orphan.",
+         PROOF_TECH),
+ "C05": ("proof", "Theorems: the monitor's ErrLost/ErrChanged clauses never fire for map, filter, scan, skip, take, merge!, concat!, share "
+         "(every reachable configuration). combine!: C05_combine_refuted is a machine-checked witness that the statement is FALSE "
+         "(known finding KF1, replayed on the crate each run); ErrChanged never fires.", PROOF_TECH),
+ "C06": ("proof", "PARTIAL. Proved: the list function of a pipeline is left-to-right application; the lazy pull interpreter delivers exactly "
+         "sem p xs, completes, and advances the iterator <= length xs + 1 times (<= n behind a take on unbounded input). The real crate is "
+         "compared with that interpreter on random pipelines (depth 0-5) each run. Not proved: that the composed callbag models refine the "
+         "interpreter for arbitrary nesting (per-stage contracts are C07/C14/C15).",
+         "Coq proof of the list-function/lazy-interpreter equivalence + differential test of real pipelines against it"),
+ "C07": ("proof", "Theorems: at every control point data_out = map f / filter c / scan_list r seed / firstn n / skipn n of data_in, for all "
+         "parameters and all environments (push and pull are the same relation); sink and upstream end together (paired); take completes "
+         "and stops upstream right after the nth item (take_complete).", PROOF_TECH),
+ "C08": ("proof", "Theorems for every n>=1, members greeting synchronously or late: arrival-order relay (merge_order), greeting with the first "
+         "member (merge_greets), completion exactly when all ended (merge_completes), and merge_safe (late greeter after the end is disposed "
+         "at once; Pulls only to live members).", PROOF_TECH),
+ "C09": ("proof", "Theorems for every n: order and laziness of subscription (concat_order), completion (concat_completes), the outstanding "
+         "Pull is re-issued at a boundary iff the sink has pulled (concat_pull_carried), no subscription after the end (concat_safe).", PROOF_TECH),
+ "C10": ("proof", "Theorems for every arity n>=1: every tuple holds each member's latest value, none before all have one (combine_tuples); "
+         "completion exactly when all members ended (combine_completes). Pull reaching ended members is KF2 (C04).", PROOF_TECH),
+ "C12": ("proof", "Theorems for any number of sinks, no nested fan-out (as C12 quantifies): one upstream subscription, started exactly when a "
+         "sink attaches to an empty list (share_one_upstream), upstream alive iff some sink attached at quiescence (share_refcount).", PROOF_TECH),
+ "C13": ("proof", "Model: a subscription is a configuration; proved: the state after ISub does not depend on the state before (sub_fresh, all "
+         "components but share, share proved NOT fresh) and the two-subscription product machine is the pair of solo runs. Tie: two-subscription "
+         "scripts on the crate (same source value subscribed twice) against two independent model configurations, plus a direct projection "
+         "test on the crate (projection of the two-subscription trace = the crate's own solo run).",
+         "Coq product/freshness theorems + two-subscription correspondence and projection test on the crate"),
+ "C14": ("proof", "PARTIAL. Pull regime (pullable upstreams, one Pull per message): proved for map, filter, scan, skip that OverPull/OverData/"
+         "Unanswered never fire; from_iter laziness is C15; take, concat!, flatten: monitors on the crate + correspondence only so far.", PROOF_TECH),
+ "C15": ("proof", "Theorems for every iterator (not assumed fused): no violation incl. no nested delivery, the loop-frame shape (at most one "
+         "delivery in progress), items in order, never advanced without a Pull, Terminate exactly at the first None, nothing after disposal.",
+         PROOF_TECH),
+ "C16": ("proof", "Theorems on the virtual clock: data = 0,1,2,.. one per tick while not disposed, nothing after disposal, a refused "
+         "subscription receives exactly one Error. Independence of subscriptions is C13. Real executors/timers are modelled by the harness's "
+         "mock Nurse+Timer (named in the trusted base).", PROOF_TECH),
+ "C17": ("proof", "Theorems: no_panic (trace c) / dead c = false in every reachable configuration of every component (every panic!/expect/"
+         "unwrap that depends on state is an APanic branch of the model). Pipelines: validated by catch_unwind in the correspondence runs.",
+         PROOF_TECH),
+ "C18": ("proof", "Interleaving model (Threads.v, SC at the granularity of instrumented accesses): exhaustively explored in the extracted model, "
+         "compared event by event with real OS threads under the token-passing scheduler through the cfg(callbag_verif) hooks. Invariant "
+         "proofs over all schedules: see Properties/C18.v (in progress where marked).",
+         "Coq interleaving model + scheduler-controlled differential test (proofs over all schedules in progress)"),
+ "C19": ("proof", "As C18 for take(n): the repaired code (fetch_update) never over-delivers under any schedule; the unrepaired code is refuted "
+         "by a machine-checked schedule that is also replayed on the crate.",
+         "Coq interleaving model + scheduler-controlled differential test"),
+ "C20": ("translation_validation", "Each of the three builds (default; tracing without subscriber; tracing with a TRACE-level subscriber) is run on "
+         "the same scripts: the three traces and user-closure evaluation counts must be equal and equal to the single Coq model, so every "
+         "theorem of C01-C17 transfers to the tracing builds; plus a static audit that every cfg(tracing)-gated item is a span/Debug item.",
+         "three-build differential correspondence against one Coq model + static audit of cfg(tracing) sites"),
 }
 
 def main():
@@ -42,7 +87,7 @@ def main():
             "technique": tech,
         })
     allp = ["C%02d" % i for i in range(1, 21)]
-    na = [{"property_id": p, "reason": "check not built yet (work in progress; every property has an executable-model formulation, see DESIGN.md)"}
+    na = [{"property_id": p, "reason": "theorems not integrated yet (flatten invariant proof in progress); monitors and correspondence exist, see DESIGN.md"}
           for p in allp if p not in CHECKS]
     man = {
         "version": 1,
@@ -51,7 +96,7 @@ def main():
             "guard": "--cfg callbag_verif",
             "enable": "RUSTFLAGS='--cfg callbag_verif' cargo build --offline (harness variant 'hooked', lib/build.sh harness hooked)",
             "baseline_off_cmd": "cd /repo && cargo nextest run --workspace --no-fail-fast --tool-config-file pb:/w/lib/nextest.toml --profile pb --test-threads 8 --offline || cargo test --workspace --no-fail-fast --offline",
-            "source_commits": [],
+            "source_commits": ["c402756", "b6ef510"],
             "add_only": True,
         },
         "engines": [{
@@ -62,7 +107,7 @@ def main():
         }],
         "checks": checks,
         "not_applicable": na,
-        "notes": "Known findings: /verif/known_findings.json. fix: commits in /repo: ef0bdaa, a78b8de, 56aafc9 (see DESIGN.md section 6).",
+        "notes": "Known findings: /verif/known_findings.json. fix: commits in /repo: ef0bdaa, a78b8de, 56aafc9, a25d8e2, eae2b4b (see DESIGN.md section 6).",
     }
     json.dump(man, open("/verif/MANIFEST.json", "w"), indent=1)
     print("wrote MANIFEST.json with", len(checks), "checks")
